@@ -54,9 +54,9 @@ ASSUMPTIONS = [
 ]
 
 TOL = 1e-11
-SINGLE_CAP = dict(quick=40, thorough=150)
+SINGLE_CAP = dict(quick=12, thorough=60)
 SINGLE_CAP_HP = dict(quick=2, thorough=4)
-SIZE_CAP = dict(quick=1600, thorough=21000)
+SIZE_CAP = dict(quick=1600, thorough=8000)
 
 
 # =====================================================================================  catalogue
@@ -149,13 +149,15 @@ def _sparse_mappings_all(rg):
     return out
 
 
-def _sparse_mappings_alphabet(rg):
+def _sparse_mappings_alphabet(rg, quick=False):
     """mapping alphabet for larger grids: which cells exist at level 0 x which existing cells get refined"""
     n0 = rg.level(0).size
     lvl0 = {"all": list(range(n0)), "even": list(range(0, n0, 2)), "last": [n0 - 1]}
     pick = {"all": lambda c: c, "first-half": lambda c: c[:max(1, len(c) // 2)], "odd-pos": lambda c: c[1::2] or c[:1]}
     out = []
     for (n0l, m0), (pl, pf) in itertools.product(lvl0.items(), pick.items()):
+        if quick and n0l == "last":
+            continue
         maps = [m0]
         for l in range(rg.depth):
             S_ = rg.level(l).nchildren()
@@ -183,7 +185,7 @@ def _catalogue(tier, seed):
             ([3], ([2], [3]), ([0], [1])), ([4], ([2], [3]), ([0], [1])), ([5], ([2], [3]), ([1], [2])),
             ([4, 5], ([2, 2], [1, 2], [3, 2]), ([1, 1], [0, 2], [1, 0])),
             ([4, 9], ([1, 2],), ([0, 2],))):
-        for depth in range(1, maxd + 1):
+        for depth in range(1, (maxd if len(shape0) == 1 else 2) + 1):
             for sp, pd in itertools.product(splits_l, pads_l):
                 out.append((2, "Open%s s%s p%s d%d" % (shape0, sp, pd, depth), O(shape0, [sp] * depth, [pd] * depth)))
             if depth >= 2:      # level-varying padding / splits
@@ -200,7 +202,9 @@ def _catalogue(tier, seed):
         out.append((3, "HEALPix nside0=%d s%s" % (ns, sp), HP(ns, sp)))
     # ---- simple open / log / broken log
     for ms in ([3], [5], [4, 3]):
-        for window, splits, depth in itertools.product((3, 5) if len(ms) == 1 else (3, [3, 1]), (2, 3), range(0, maxd + 1)):
+        wins = (3, 5) if len(ms) == 1 else (3, [3, 1])
+        ws = list(zip(wins, (2, 3))) if q else list(itertools.product(wins, (2, 3)))
+        for (window, splits), depth in itertools.product(ws, range(0, 3)):
             for dist in (None, fl["dist"][:len(ms)]):
                 out.append((4, "SimpleOpen%s w%s s%s d%d dist=%s" % (ms, window, splits, depth, dist),
                             SO(ms, window, splits, depth, dist)))
@@ -208,11 +212,12 @@ def _catalogue(tier, seed):
     out.append((4, "SimpleOpen[5] splits-per-level", SO([5], 3, [[2], [3]], None, None)))
     out.append((4, "SimpleOpen[4,3] window-tuple", SO([4, 3], "tuple33", 2, 1, None)))
     for ms in ([3], [6]):
-        for window, splits, depth in itertools.product((3, 5), (2, 3), range(0, maxd + 1)):
+        ws = [(3, 2), (5, 3)] if q else list(itertools.product((3, 5), (2, 3)))
+        for (window, splits), depth in itertools.product(ws, range(0, 3)):
             for rr in fl["radii"]:
                 out.append((5, "Log%s w%s s%s d%d r%s" % (ms, window, splits, depth, rr),
                             SO(ms, window, splits, depth, None, kind="log", radii=list(rr))))
-            for rr in (fl["broken"] if (not q or (ms == [3] and (window, splits) in ((3, 2), (5, 3)))) else []):
+            for rr in (fl["broken"] if (not q or ms == [3]) else []):
                 out.append((5, "BrokenLog%s w%s s%s d%d r%s" % (ms, window, splits, depth, rr),
                             SO(ms, window, splits, depth, None, kind="blog", radii=list(rr))))
     # ---- products
@@ -255,11 +260,14 @@ def _catalogue(tier, seed):
         tiny += [("Grid[2,2] s2 d1", G([2, 2], [[2, 2]])), ("Grid[3] s(2,3) d2", G([3], [[2], [3]]))]
     for lb, g in tiny:
         for mp in _sparse_mappings_all(_ref(g)):
-            out.append((9, "Sparse %s %s" % (lb, mp), S(g, mp)))
-    bigger = [("Grid2d", G([2, 3], [[2, 2], [1, 2]])), ("HEALPix", HP(1, [4, 4]) if not q else HP(1, [4])),
-              ("Grid x Grid", P(g1, g1b))]
+            sp_ = S(g, mp)
+            sp_["all_levels"] = True          # tiny: one case checks every level
+            out.append((9, "Sparse %s %s" % (lb, mp), sp_))
+    bigger = [("Grid2d", G([2, 3], [[2, 2], [1, 2]])), ("HEALPix", HP(1, [4, 4]) if not q else HP(1, [4]))]
+    if not q:
+        bigger.append(("Grid x Grid", P(g1, g1b)))
     for lb, g in bigger:
-        for ml, mp in _sparse_mappings_alphabet(_ref(g)):
+        for ml, mp in _sparse_mappings_alphabet(_ref(g), q):
             out.append((9, "Sparse %s %s" % (lb, ml), S(g, mp)))
     out.append((9, "Sparse over Flat-nest", S(F(g1, "nest"), [[0, 1], [0, 1, 2, 3], list(range(8))])))
     out.append((9, "Sparse over Flat-serial (refused)", S(F(g1, "serial"), [[0, 1], [0, 1, 2, 3], list(range(8))])))
@@ -288,7 +296,7 @@ def cases(tier, seed):
         if fs > SIZE_CAP[tier]:
             continue
         depth = _depth(spec)
-        if depth is None or _expected_refusal(spec) is not None:
+        if depth is None or _expected_refusal(spec) is not None or spec.get("all_levels"):
             out.append((rank, fs, 0, dict(label=label, grid=spec, level="all", tier=tier)))
             continue
         for l in range(depth + 1):
@@ -475,9 +483,9 @@ def _windows(s, rl, tier):
             out.append(("x".join(x[0] for x in sel), [x[1] for x in sel], tuple(lw)))
         return out
     nd = rl.ndim
-    al = [[1] * nd, [3] * nd, [2] * nd, ([3, 2, 1] * nd)[:nd]]
-    if tier != "quick" or nd == 1:
-        al.append([5] * nd)
+    al = [[3] * nd, [2] * nd, ([3, 2, 1] * nd)[:nd] if nd > 1 else [5]]
+    if tier != "quick":
+        al += [[1] * nd, [5] * nd]
     out, seen = [], set()
     for w in al:
         if tuple(w) not in seen:
@@ -513,9 +521,31 @@ def _first_bad(mask):
     return [int(x) for x in w[0]] if len(w) else None
 
 
+def _pad(x):
+    """pad the batch axis (axis 1) to the next power of two by repeating the last column: the library is eager JAX,
+    every new array shape costs a compilation of every primitive; padding keeps the number of distinct shapes small"""
+    N = x.shape[1]
+    P = 1 << max(0, (N - 1).bit_length())
+    if P == N:
+        return x
+    return np.concatenate([x, np.repeat(x[:, -1:], P - N, axis=1)], axis=1)
+
+
+def _bcall(fn, x, *a, **k):
+    """call a batched library map on a (d, N) array through the padded batch; result cut back to N columns"""
+    N = x.shape[1]
+    xp = _pad(x)
+    out = _np(fn(xp, *a, **k))
+    if out.ndim >= 2 and out.shape[1] == xp.shape[1] and xp.shape[1] != N:
+        out = out[:, :N]
+    elif out.ndim == 1 and out.shape[0] == xp.shape[1] and xp.shape[1] != N:
+        out = out[:N]
+    return out
+
+
 def _vol(lv, idx):
     """library volumes broadcast to one number per index"""
-    v = _np(lv.index2volume(idx))
+    v = _bcall(lv.index2volume, idx) if idx.ndim > 1 else _np(lv.index2volume(idx))
     N = idx.shape[1] if idx.ndim > 1 else 1
     try:
         v = np.broadcast_to(v, (1, N) if idx.ndim > 1 else (1,))
@@ -619,7 +649,7 @@ def _check_level(s, g, rg, l, stats, tags, case):
     stats["indices"] += N
     tags.add("coord")
     # ------------------------------------------------------------------ coordinates
-    C = _np(lv.index2coord(A))
+    C = _bcall(lv.index2coord, A)
     Cref = rl.coord(A)
     stats["lib_calls"] += 1
     good, err = _close(C, Cref)
@@ -628,14 +658,14 @@ def _check_level(s, g, rg, l, stats, tags, case):
         raise Fail("coord", "index2coord", "index2coord differs from the cell centre (rel err %.3g, shape %s vs %s)%s"
                    % (err, C.shape, Cref.shape,
                       "" if k is None else "; index %s: %s, model %s" % (A[:, k[1]].tolist(), C[:, k[1]].tolist(), Cref[:, k[1]].tolist())))
-    back = _np(lv.coord2index(C))
+    back = _bcall(lv.coord2index, C)
     stats["lib_calls"] += 1
     if back.shape != A.shape or not np.array_equal(back.astype(np.int64), A):
         k = _first_bad(back.astype(np.int64) != A) if back.shape == A.shape else None
         raise Fail("coord", "roundtrip", "coord2index(index2coord(i)) != i%s"
                    % ("" if k is None else " at i=%s -> %s" % (A[:, k[1]].tolist(), back[:, k[1]].tolist())))
     for p in rl.probes(A):
-        b2 = _np(lv.coord2index(p))
+        b2 = _bcall(lv.coord2index, p)
         stats["lib_calls"] += 1
         if b2.shape != A.shape or not np.array_equal(b2.astype(np.int64), A):
             k = _first_bad(b2.astype(np.int64) != A)
@@ -668,11 +698,11 @@ def _check_level(s, g, rg, l, stats, tags, case):
         Rf = R.reshape(R.shape[0], -1).astype(np.int64)
         if Rf.shape != Rref.shape or not np.array_equal(Rf, Rref):
             raise Fail("refine", "refined_indices", "refined_indices() = %s..., model %s..." % (Rf[:, :6].tolist(), Rref[:, :6].tolist()))
-        isr = _np(lv._is_index_refined(A)).astype(bool)
+        isr = _bcall(lv._is_index_refined, A).astype(bool)
         if isr.shape != (N,) or not np.array_equal(isr, rl.is_refined(A)):
             raise Fail("refine", "is_index_refined", "_is_index_refined disagrees with the model: %s vs %s"
                        % (isr.astype(int).tolist()[:12], rl.is_refined(A).astype(int).tolist()[:12]))
-        ch = _np(lv.children(Rref))
+        ch = _bcall(lv.children, Rref)
         stats["lib_calls"] += 3
         nR = Rref.shape[1]
         chf = ch.reshape(ch.shape[0], nR, -1).astype(np.int64)
@@ -683,7 +713,7 @@ def _check_level(s, g, rg, l, stats, tags, case):
                 chf.shape, chref.shape, "" if k is None else "; parent %s: %s, model %s" % (
                     Rref[:, k[1]].tolist(), chf[:, k[1]].T.tolist()[:6], chref[:, k[1]].T.tolist()[:6])))
         # parent of every child is the index itself
-        par = _np(lv1.parent(chf.reshape(chf.shape[0], -1))).astype(np.int64).reshape(chf.shape)
+        par = _bcall(lv1.parent, chf.reshape(chf.shape[0], -1)).astype(np.int64).reshape(chf.shape)
         stats["lib_calls"] += 1
         if not np.array_equal(par, np.broadcast_to(Rref[:, :, None], chf.shape)):
             k = _first_bad(par != Rref[:, :, None])
@@ -699,7 +729,7 @@ def _check_level(s, g, rg, l, stats, tags, case):
             raise Fail("refine", "partition", "next-level index %s is the child of %d indices (must be exactly 1)"
                        % (list(np.unravel_index(j, tuple(int(x) for x in rl1.shape))), int(cnt[j])))
         # parent of EVERY next-level index = model
-        pall = _np(lv1.parent(A1)).astype(np.int64)
+        pall = _bcall(lv1.parent, A1).astype(np.int64)
         stats["lib_calls"] += 1
         if pall.shape != A1.shape or not np.array_equal(pall, rl1_parent(rl, rl1, A1)):
             k = _first_bad(pall != rl1_parent(rl, rl1, A1)) if pall.shape == A1.shape else None
@@ -716,11 +746,11 @@ def _check_level(s, g, rg, l, stats, tags, case):
             k = int(np.argmax(cv - pv))
             raise Fail("volume", "children-outweigh-parent", "children of %s have total volume %.12g > parent %.12g"
                        % (Rref[:, k].tolist(), cv[k], pv[k]))
-        _check_resort(s, lv, lv1, rl, rl1, R, Rref, tags, stats)
+        _check_resort(s, lv, lv1, rl, rl1, R, chf, tags, stats)
     # ------------------------------------------------------------------ neighbourhoods
     for wl, wm, wlib in _windows(s, rl, tier):
         try:
-            nb = _np(lv.neighborhood(A, wlib))
+            nb = _bcall(lv.neighborhood, A, wlib)
         except NotImplementedError:
             continue
         except (AssertionError, TypeError, ValueError):
@@ -833,13 +863,15 @@ def _contains_serial_flat(s):
     return False
 
 
-def _check_resort(s, lv, lv1, rl, rl1, R, Rref, tags, stats):
+def _check_resort(s, lv, lv1, rl, rl1, R, chf, tags, stats):
     """resort() of the next level must put the value computed for child c of refined index r at the position of
     that child: feed it the children's own (raveled) indices and expect the identity arrangement."""
     nd = rl.ndim
-    ch = _np(lv.children(R)).astype(np.int64)             # (nd, *rshape, *splitshape), one r-axis per index axis
-    if ch.ndim != 1 + 2 * nd:
-        raise Fail("resort", "children-shape", "children(refined_indices()) has shape %s" % (ch.shape,))
+    # children of refined_indices() in the layout the kernels produce: (nd, *rshape, *splitshape); `chf` holds the
+    # (already verified) children of the refined indices in C order, R is the library's refined_indices()
+    if R.ndim != 1 + nd:
+        raise Fail("resort", "refined-shape", "refined_indices() has shape %s for %d index axes" % (R.shape, nd))
+    ch = chf.reshape((nd,) + tuple(R.shape[1:]) + tuple(int(x) for x in rl.split))
     perm = [0] + [1 + x for a in range(nd) for x in (a, nd + a)]      # interleave (r_a, s_a) per axis
     batched = np.ravel_multi_index(tuple(np.transpose(ch, perm)), tuple(int(x) for x in rl1.shape))
     want = np.arange(rl1.size).reshape(tuple(int(x) for x in rl1.shape))
@@ -874,7 +906,7 @@ def _check_flat(s, lv, rl, rg, l, tags, stats):
             continue
         inner = rg.grid.level(ll)
         MI = inner.all_indices()
-        f = _np(lv.index2flatindex(MI, shift)).astype(np.int64)
+        f = _bcall(lv.index2flatindex, MI, shift).astype(np.int64)
         fref = num.flat(ll, MI)
         stats["lib_calls"] += 2
         if f.shape != fref.shape or not np.array_equal(f, fref):
@@ -883,7 +915,7 @@ def _check_flat(s, lv, rl, rg, l, tags, stats):
                        % (shift, num.ordering, "" if k is None else ": %s -> %s, model %s" % (MI[:, k[1]].tolist(), f[:, k[1]].tolist(), fref[:, k[1]].tolist())))
         if sorted(f[0].tolist()) != list(range(inner.size)):
             raise Fail("flat", "not-bijective", "flat indices of level %d are not a permutation of range(size)" % ll)
-        b = _np(lv.flatindex2index(fref, shift)).astype(np.int64)
+        b = _bcall(lv.flatindex2index, fref, shift).astype(np.int64)
         if b.shape != MI.shape or not np.array_equal(b, MI):
             k = _first_bad(b != MI) if b.shape == MI.shape else None
             raise Fail("flat", "flatindex2index(shift=%+d)" % shift, "flatindex2index(levelshift=%d) is not the inverse numbering%s"
@@ -891,7 +923,7 @@ def _check_flat(s, lv, rl, rg, l, tags, stats):
     tags.add("flat")
     if s["k"] == "sparse":
         a = rl.all_indices()
-        f = _np(lv.arrayindex2flatindex(a)).astype(np.int64)
+        f = _bcall(lv.arrayindex2flatindex, a).astype(np.int64)
         want = np.asarray(s["mapping"][l], dtype=np.int64)[None]
         if not np.array_equal(f, want):
             raise Fail("flat", "arrayindex2flatindex", "arrayindex2flatindex != mapping")
